@@ -426,6 +426,21 @@ func (fv *FnV) exec(st *State, s ast.Stmt) *State {
 			}
 		}
 	}
+	if _, isRet := s.(*ast.ReturnStmt); isRet {
+		// asserts anchored on a return statement are checked in the state just before it
+		if acs, ok := fv.assertAt[s]; ok && !st.dead && len(fv.frames) == 1 {
+			for _, ac := range acs {
+				g := fv.evalClauseAt(st, ac.Cl, s.Pos())
+				lab := ac.Cl.Label
+				if lab == "" {
+					lab = ac.Var
+				}
+				fv.oblige(st, "assert["+lab+"]", "", g, s, ac.Cl)
+				st.assume(fv.name("as", g, "Bool"))
+			}
+		}
+		return fv.exec1(st, s)
+	}
 	st = fv.exec1(st, s)
 	if acs, ok := fv.assertAt[s]; ok && !st.dead && len(fv.frames) == 1 {
 		for _, ac := range acs {
